@@ -84,6 +84,10 @@ func c22Replay(c c22Case) (*uix.Session, *eng.Fail) {
 				return s, &eng.Fail{Sig: fmt.Sprintf("render panic %s in %s", eng.PanicSite(r.Stack), s.ModeKind()),
 					What: fmt.Sprintf("program %s: rendering the %s screen at height %d after line %q crashes: %v", c.Prog, s.ModeKind(), h, l.Line, r.Panic), Case: c}
 			}
+			if r.Err != nil {
+				return s, &eng.Fail{Sig: fmt.Sprintf("render returns-error in %s", s.ModeKind()),
+					What: fmt.Sprintf("program %s: rendering the %s screen at height %d after line %q fails: %v", c.Prog, s.ModeKind(), h, l.Line, r.Err), Case: c}
+			}
 		}
 	}
 	return s, nil
@@ -96,6 +100,7 @@ func init() {
 		Rule:        "explicit-state BFS over input-line histories of depth <=3 (thorough 4) from the initial state and 5 non-initial root states (inside the emulator, after emulation steps, inside memory views of an absent and of a written memory, after a move) on 4 programs (a 1-instruction code, a 3-block code with blocks of different sizes, a loop with a gap, a code with blocks of 2, 1 and 2 instructions), through the real UI.processCommand with stdin injected per command; line alphabets per mode: disassembler 43 lines plus, per program, moves between every pair of block header lines, a move of EVERY line onto itself and onto its successor, bounds of every line, and move/bounds/goto on each block's first instruction, emulator 35 lines with prompt answers from {5,0x10,-1,'',_,zz}, memory view 27 lines (blank/space-only lines, missing/extra/non-numeric/negative/huge arguments, out-of-range line numbers, bad regexes, unknown commands, mode switches e, m <key>, q). After every command the composite screen is rendered at heights 24 and 50 as Run does. States are deduplicated by (mode stack, cursors, marks, code order, emulator registers and memory). Plus two long walks per program on a single session (600 lines cycling through the alphabet of the current mode). Oracle: no panic, the command loop does not fail, q pops exactly one mode. Non-trivial = history reaching a new state.",
 		Assumptions: []string{"every injected input ends with a tail of valid answers so prompts never hit EOF (horizon)", "terminal size is supplied by the harness (heights 24, 50); the system call path is only exercised by C26's pty runs"},
 		Run: func(r *eng.Run) {
+			uix.Discard = true // the oracle does not read the screen text
 			depth := 3
 			if !r.Quick() {
 				depth = 4
@@ -140,7 +145,8 @@ func init() {
 							continue
 						}
 						alpha := c22Alpha[s.ModeKind()]
-						if v := s.ListView(); v != nil && s.ModeKind() == "disassemble" {
+						if v := s.ListView(); v != nil && s.ModeKind() == "disassemble" && (lvl+1 < depth || depth <= 2) {
+							// (the per-program additions are used on all but the last level)
 							// program-specific moves: every pair of block header lines, and the
 							// first instruction line of each block with its neighbours
 							var heads []int
@@ -247,6 +253,7 @@ func init() {
 			if err := json.Unmarshal(raw, &c); err != nil {
 				panic(err)
 			}
+			uix.Discard = true
 			_, f := c22Replay(c)
 			return f
 		},
